@@ -520,3 +520,41 @@ def r12_4(ctx):
         c = lib.consts.get(nm)
         if not c or c["value"] != want:
             ctx.violation(["const", nm], "constant %s is %s, expected %s (unix build)" % (nm, c["value"] if c else None, want))
+
+
+@rule("C16", "R16.4", floor=1)
+def r16_4(ctx):
+    """no source line is lost: the line that terminated a directive is re-queued (saved tail line) on every path that goes on to
+    the next line"""
+    lib = ctx.lib
+    ri = body(ctx, "pp_run_internal")
+    if not ri:
+        return
+    e = enum_edges(ri, lib, ADT["IterDirectiveResult"], lambda vs: vs == {"Execute"})
+    heads = [bb for bb, t in calls_to(ri, ROLE["get_next_line"])]
+    if not e or not heads:
+        ctx.anchor_missing("Execute arm / get_next_line loop head in the line processor")
+        return
+
+    def is_tail(lv):
+        return any(l.kind == "field" and any(o == ADT["IterDirectiveResult"] and v == "Execute" and n in (1, "1") for (o, v, n) in C.pl_fields(l.data))
+                   for l in lv)
+    stores = []
+    for bb, si, st in ri.stmts():
+        if st["k"] == "assign" and st["lhs"]["p"] and st["lhs"]["p"][-1].get("name") == "execute_tail_line" and st["rv"]["k"] == "use":
+            if is_tail(C.trace(ri, st["rv"]["op"])):
+                stores.append(bb)
+    none_e = bool_call_edges(ri, lib, "std::option::Option::<T>::is_some", False, arg_pred=lambda t: is_tail(C.trace(ri, t["args"][0]))) | \
+        bool_call_edges(ri, lib, "std::option::Option::<T>::is_none", True, arg_pred=lambda t: is_tail(C.trace(ri, t["args"][0]))) | \
+        enum_edges(ri, lib, "std::option::Option", lambda vs: vs == {"None"}, src_pred=lambda c: is_tail(c.src))
+    if not stores:
+        ctx.violation(["tail-never-saved"], "the line that terminates a directive is never re-queued: it would be skipped", site=ctx.site(ri, heads[0]))
+        return
+    reached = ri.reachable_from_edges(e, cut=out_edges(ri, stores) | none_e)
+    lost = [h for h in heads if h in reached]
+    if lost:
+        ctx.violation(["tail-lost"], "after executing a directive the line processor can fetch the next line without re-queuing the line that "
+                      "terminated the directive: that source line is silently skipped (its text or directive is lost)", site=ctx.site(ri, lost[0]),
+                      witness=["bb%d@%s" % (b2, ri.term(b2)["span"]["line"]) for b2 in sorted(reached)][:12])
+    else:
+        ctx.ok("the terminating line is re-queued on every path back to the loop head", site=ctx.site(ri, stores[0]))
